@@ -20,6 +20,9 @@ CORPUS = [
     ("layout", "S: Id+;\nLayout: LayoutItem*;\nLayoutItem: WS | Comment;\nComment: '/*' Corncs '*/' | CommentLine;\nCorncs: Cornc*;\n"
                "Cornc: Comment | NotComment | WS;\nterminals\nId: /[a-z]+/;\nWS: /\\s+/;\nCommentLine: /\\/\\/.*/;\nCS: '/*';\nCE: '*/';\n"
                "NotComment: /((\\*[^\\/])|[^\\s*\\/]|\\/[^\\*])+/;\n", "ab /*/ \n"),
+    # a Layout rule whose own automaton has conflicts involving an empty reduction (GLR: the nested LR layout parser runs on
+    # the non-deterministic table and takes the FIRST action of a cell)
+    ("layout-ambig", "S: A+;\nA: Ta;\nLayout: LayoutItem*;\nLayoutItem: WS* | Comment;\nterminals\nTa: 'a';\nWS: /\\s/;\nComment: /#[^\\n]*/;\n", "a #x\n"),
     ("cyclic", "S: A | Ta;\nA: S {15};\nterminals\nTa: 'a';\n", "a "),
     ("emptyre", "S: A+;\nterminals\nA: /a*/;\n", "ab "),
 ]
